@@ -30,7 +30,7 @@ import warnings
 
 import numpy as np
 
-from runner import Infra
+from runner import Infra, TieBroken
 
 ID = "C14"
 LEAN_MODULES = ["PyYetiVerif.Props.C14", "PyYetiVerif.Audit.C14"]
@@ -121,6 +121,25 @@ MANIFEST = {
 
 TOL = 1e-9
 TOL_AXIS = 1e-12
+
+
+def translate(ctx):
+    """the thresholds / unit constants of n2p.py the model depends on -> Generated/CoordConsts.lean"""
+    import sys
+
+    tdir = os.path.join(ctx.verif, "harness", "translate")
+    if tdir not in sys.path:
+        sys.path.insert(0, tdir)
+    import c14_coordconsts as tr
+
+    try:
+        names, consts = tr.run(ctx.repo, ctx.lean)
+    except tr.Unparsable as e:
+        raise TieBroken("the constants of n2p.py no longer fit the translator's grammar: %s" % e)
+    except (OSError, SyntaxError) as e:
+        raise TieBroken("cannot read n2p.py: %s" % e)
+    ctx.extra["generated_constants"] = {k: v for k, v in consts.items()}
+    return names
 
 
 # ---------------------------------------------------------------------------------------
@@ -1634,8 +1653,11 @@ def _oracle_world(ctx, w, style=0, rbe3_case=None, rep=None, seed=0):
     try:
         uset, cr = _build(w, style, rng)
     except Exception as e:
-        fail("build-raises-" + type(e).__name__, "addgrid/build_coords raised on a valid chain: %s" % e,
-             {"check": "build"}, repr(e), "a uset table")
+        dmax = max([_depth(cs, k + 1) for k in range(len(cs))] + [0])
+        dec = any(s_["ref"] and s_["id"] < cs[s_["ref"] - 1]["id"] for s_ in cs)
+        fail("build-raises-%s-chain-depth-%s%s" % (type(e).__name__, dmax if dmax < 3 else "3+",
+                                                  "-ids-decreasing-along-chain" if dec else ""),
+             "addgrid/build_coords raised on a valid chain: %s" % e, {"check": "build"}, repr(e), "a uset table")
         return
     if not gents:
         return
